@@ -194,12 +194,12 @@ struct Stack {
     c: c05::Case,
     u2: Option<(c05::Lex, String)>,
 }
-fn gen_stack(st: u64, user: bool, scratch_dir: &std::path::Path) -> Stack {
+fn gen_stack(st: u64, user: bool, special: Option<usize>, scratch_dir: &std::path::Path) -> Stack {
     let mut r = Rng(st);
     let mut scratch = Sink::new("C11", &scratch_dir.join("scratch"), &[], 0, "quick");
     // the case generator of C05 makes the second user lexicon (U-references that differ between split A, split B and word
     // structure) as part of every user case
-    let c = c05::gen_case(&mut r, &mut scratch, user, false, false);
+    let c = c05::gen_case_with(&mut r, &mut scratch, user, false, false, special);
     let u2 = c.user2.clone().map(|l| (l, c.user2_csv.clone()));
     Stack { c, u2 }
 }
@@ -229,12 +229,17 @@ fn load_stack(stk: &Stack) -> Option<LoadedStack> {
 
 fn word_level(sink: &mut Sink, rng: &mut Rng, n_dicts: usize, exhaustive_words: usize) {
     let mut exhaustive_left = exhaustive_words;
-    for k in 0..n_dicts {
+    // first, whatever the seed: the directed lexicons of C05 whose split A / split B / word structure / synonym arrays have
+    // 0, 1, 63, 64, 65, 127 items in rotating positions (as a system lexicon, and as the first user lexicon of a stack)
+    let directed = c05::ARRAY_VARIANTS;
+    for k0 in 0..directed + n_dicts {
+        let special = if k0 < directed { Some(c05::ARRAYS_BASE + k0) } else { None };
+        let k = if k0 < directed { k0 } else { k0 - directed };
         let st = rng.next();
         let user = k % 2 == 1;
-        let stk = gen_stack(st, user, &sink.dir.clone());
+        let stk = gen_stack(st, user, special, &sink.dir.clone());
         let c = &stk.c;
-        let desc = |dic: u8, wid: usize, kind: &str| json!({"kind": "c11-word", "rng": st, "user": user, "dic": dic, "word": wid, "variant": kind, "csv": if c.sys_csv.len() < 1200 { c.sys_csv.clone() } else { String::new() }, "user_csv": if c.user_csv.len() < 1200 { c.user_csv.clone() } else { String::new() },
+        let desc = |dic: u8, wid: usize, kind: &str| json!({"kind": "c11-word", "rng": st, "user": user, "special": special, "dic": dic, "word": wid, "variant": kind, "csv": if c.sys_csv.len() < 1200 { c.sys_csv.clone() } else { String::new() }, "user_csv": if c.user_csv.len() < 1200 { c.user_csv.clone() } else { String::new() },
             "user2_csv": stk.u2.as_ref().map(|x| if x.1.len() < 1200 { x.1.clone() } else { String::new() }).unwrap_or_default()});
         if !user {
             let sys_bytes = match c05::compile_system(&c.sys_csv, &c.matrix_text, c.time, &c.descr) {
@@ -278,7 +283,7 @@ fn word_level(sink: &mut Sink, rng: &mut Rng, n_dicts: usize, exhaustive_words: 
             };
             let _ = &ls.sys_bytes;
             let n1 = c.user.as_ref().map(|u| u.rows.len()).unwrap_or(0);
-            for wid in 0..n1.min(2) {
+            for wid in 0..(if special.is_some() { n1 } else { n1.min(2) }) {
                 word_case(sink, &ls.jd, &ls.u1, true, 1, ls.loaded_nsys, ls.loaded_nsys, wid as u32, &sampled(rng, 30), desc(1, wid, "user-1"));
             }
             let n2 = stk.u2.as_ref().map(|u| u.0.rows.len()).unwrap_or(0);
@@ -1014,7 +1019,7 @@ fn history_level(sink: &mut Sink, rng: &mut Rng, n_random: usize) {
 pub fn run(args: &Args) {
     let mut sink = Sink::new("C11", &args.out, &["Model.Codec", "Model.CodecIO", "Model.CodecCheck"], args.seed, &args.tier);
     sink.shard_size = 12;
-    sink.rule("(a) words of generated dictionaries: a system dictionary (also re-labelled as the format without synonym ids) or a system dictionary with TWO user dictionaries on top, the second with references from user words to user words (strings across the 127/128 prefix boundary, astral characters, forms empty / equal / different, arrays of 0..127 ids, own and foreign dictionary forms) x ALL 1024 requested subsets for some words and 40 sampled subsets (always incl. {}, {SURFACE}, {DIC_FORM_WORD_ID}, {NORMALIZED_FORM}, {READING_FORM}, each split alone, all) for the others: raw WordInfoData of LexiconSet::get_word_info_subset(normalize s) vs model, requested accessors vs full load; (b) analyses of texts over the shipped system dictionary with user2.csv and user1.csv compiled on top as dictionaries 1 and 2, with/without path-rewrite plugins x random subset x initial mode x mode x both orders of set_mode/set_subset vs the full-field analysis, and the tokenizer's resulting subset vs model; (c) sequences of 4..10 operations (set_mode, set_subset, analyse + collect_results) on two long-lived tokenizers sharing two MorphemeLists, every analysis vs a fresh full-field analysis in the same mode, the subset each list reports after a collection vs model; (d) MorphemeList::empty -> lookup(query, subset) -> split_into(A / B) vs the lexicon read with all fields; (e) split_into of the morphemes of an analysis (directed subsets x texts, and random ones) into target lists with a history (filled before by tokenizers with narrower / wider subsets, by lookup, by earlier splits, cleared or not) vs the same split of a fresh full-field analysis into a fresh list, on ranges, word ids, every requested field and the subset the target reports; every case non-trivial except sequences with fewer than two analyses; distinct by generated Coq term");
+    sink.rule("(a) words of generated dictionaries: a system dictionary (also re-labelled as the format without synonym ids) or a system dictionary with TWO user dictionaries on top, the second with references from user words to user words (strings across the 127/128 prefix boundary, astral characters, forms empty / equal / different, arrays of 0/1/2/63/64/65/127 ids incl. directed lexicons with these lengths in every array field, own and foreign dictionary forms) x ALL 1024 requested subsets for some words and 40 sampled subsets (always incl. {}, {SURFACE}, {DIC_FORM_WORD_ID}, {NORMALIZED_FORM}, {READING_FORM}, each split alone, all) for the others: raw WordInfoData of LexiconSet::get_word_info_subset(normalize s) vs model, requested accessors vs full load; (b) analyses of texts over the shipped system dictionary with user2.csv and user1.csv compiled on top as dictionaries 1 and 2, with/without path-rewrite plugins x random subset x initial mode x mode x both orders of set_mode/set_subset vs the full-field analysis, and the tokenizer's resulting subset vs model; (c) sequences of 4..10 operations (set_mode, set_subset, analyse + collect_results) on two long-lived tokenizers sharing two MorphemeLists, every analysis vs a fresh full-field analysis in the same mode, the subset each list reports after a collection vs model; (d) MorphemeList::empty -> lookup(query, subset) -> split_into(A / B) vs the lexicon read with all fields; (e) split_into of the morphemes of an analysis (directed subsets x texts, and random ones) into target lists with a history (filled before by tokenizers with narrower / wider subsets, by lookup, by earlier splits, cleared or not) vs the same split of a fresh full-field analysis into a fresh list, on ranges, word ids, every requested field and the subset the target reports; every case non-trivial except sequences with fewer than two analyses; distinct by generated Coq term");
     let mut rng = Rng::new(args.seed);
     if let Some(p) = &args.replay {
         let v: Value = serde_json::from_str(&std::fs::read_to_string(p).unwrap()).unwrap();
@@ -1048,7 +1053,7 @@ pub fn run(args: &Args) {
             let st = case["rng"].as_u64().unwrap();
             let user = case["user"].as_bool().unwrap();
             let dic = case["dic"].as_u64().unwrap_or(if user { 1 } else { 0 }) as u8;
-            let stk = gen_stack(st, user, &args.out);
+            let stk = gen_stack(st, user, case["special"].as_u64().map(|d| d as usize), &args.out);
             let c = &stk.c;
             println!("system csv:\n{}user csv (dictionary 1):\n{}user csv (dictionary 2):\n{}", c.sys_csv, c.user_csv, stk.u2.as_ref().map(|x| x.1.as_str()).unwrap_or(""));
             let sys_bytes = c05::compile_system(&c.sys_csv, &c.matrix_text, c.time, &c.descr).unwrap();
